@@ -182,6 +182,9 @@ struct Case {
     /// picture starts with the CP437 characters EF BB BF on default colours, rest of the picture 7-bit
     bom: bool,
     rows: Vec<Row>,
+    /// the generator removed the trigger of an open known finding from this buffer (see `steer`)
+    #[serde(default)]
+    steered: bool,
 }
 
 // ------------------------------------------------------------------------------------------------ normal form (the grid actually saved)
@@ -418,7 +421,7 @@ fn cell_mismatches(n: &Norm, loaded: &Buffer, x: usize, y: usize, out: &mut Vec<
     }
 }
 
-/// `probe`: only look at this (clause, x, y) — used by the key attribution
+/// `probe`: only look for this clause in the cells up to (x, y) in reading order — used by the key attribution
 fn roundtrip(n: &Norm, probe: Option<(&'static str, usize, usize)>) -> Outcome {
     match icyv::panics::guarded(|| roundtrip_inner(n, probe)) {
         Ok(o) => o,
@@ -457,10 +460,15 @@ fn roundtrip_inner(n: &Norm, probe: Option<(&'static str, usize, usize)>) -> Out
     let mut tmp = Vec::new();
     if let Some((clause, x, y)) = probe {
         if clause != "size" {
-            if y < h && x < n.w {
-                cell_mismatches(n, &loaded, x, y, &mut tmp);
-                if let Some((k, msg)) = tmp.into_iter().find(|(k, _)| CLAUSES[*k] == clause) {
-                    return Outcome::Differs(vec![Mis { clause: CLAUSES[k], x, y, msg }], Vec::new());
+            // first cell in reading order, up to and including (x,y), that violates the clause
+            for cy in 0..=y.min(h - 1) {
+                let end = if cy == y { (x + 1).min(n.w) } else { n.w };
+                for cx in 0..end {
+                    tmp.clear();
+                    cell_mismatches(n, &loaded, cx, cy, &mut tmp);
+                    if let Some((k, msg)) = tmp.drain(..).find(|(k, _)| CLAUSES[*k] == clause) {
+                        return Outcome::Differs(vec![Mis { clause: CLAUSES[k], x: cx, y: cy, msg }], Vec::new());
+                    }
                 }
             }
             return Outcome::Same;
@@ -505,7 +513,8 @@ fn roundtrip_inner(n: &Norm, probe: Option<(&'static str, usize, usize)>) -> Out
 
 // ------------------------------------------------------------------------------------------------ key attribution
 
-/// what "the same failure" means while a failing case is simplified: the clause is violated at the same cell
+/// what "the same failure" means while a failing case is simplified: the clause is violated at this cell or at an
+/// earlier one in reading order (the probe then moves there)
 #[derive(Clone, Copy)]
 struct Probe {
     clause: &'static str,
@@ -513,18 +522,19 @@ struct Probe {
     y: usize,
 }
 
-fn still(n: &Norm, p: &Probe) -> Option<String> {
+/// is the clause still violated at the probe cell or before it (reading order)? returns the message and the cell
+fn still(n: &Norm, p: &Probe) -> Option<(String, usize, usize)> {
     match p.clause {
         "save_error" => match roundtrip(n, None) {
-            Outcome::SaveError(e) => Some(e),
+            Outcome::SaveError(e) => Some((e, 0, 0)),
             _ => None,
         },
         "load_error" => match roundtrip(n, None) {
-            Outcome::LoadError(e) => Some(e),
+            Outcome::LoadError(e) => Some((e, 0, 0)),
             _ => None,
         },
         _ => match roundtrip(n, Some((p.clause, p.x, p.y))) {
-            Outcome::Differs(v, _) => v.into_iter().find(|m| m.clause == p.clause).map(|m| m.msg),
+            Outcome::Differs(v, _) => v.into_iter().find(|m| m.clause == p.clause).map(|m| (m.msg, m.x, m.y)),
             _ => None,
         },
     }
@@ -590,6 +600,8 @@ enum Step {
     /// last cell of every row gets a non-blank glyph (same colours)
     Trailing,
     Feature(usize),
+    /// every option at its base value at once
+    AllOpts,
     Opt(usize),
 }
 
@@ -603,9 +615,9 @@ struct Attr {
 
 impl Attr {
     fn keep_if_fails(&mut self, cand: Norm, pr: Probe) -> bool {
-        if let Some(m) = still(&cand, &pr) {
+        if let Some((m, x, y)) = still(&cand, &pr) {
             self.n = cand;
-            self.p = pr;
+            self.p = Probe { x, y, ..pr };
             self.msg = m;
             true
         } else {
@@ -719,22 +731,6 @@ impl Attr {
                 if !self.positional {
                     return (false, true);
                 }
-                {
-                    // re-flow the cell stream at width 80 (keeps everything that does not depend on the margins)
-                    let mut stream: Vec<Cell> = n.grid.iter().flatten().copied().collect();
-                    let idx = p.y * w + p.x;
-                    while stream.len() % 80 != 0 {
-                        stream.push(FILL_A);
-                    }
-                    if stream.len() / 80 <= 60 {
-                        let mut c = n.clone();
-                        c.w = 80;
-                        c.grid = stream.chunks(80).map(|r| r.to_vec()).collect();
-                        if self.keep_if_fails(c, Probe { x: idx % 80, y: idx / 80, ..p }) {
-                            return (true, false);
-                        }
-                    }
-                }
                 // cut columns out of (wide) or stretch a column of (narrow) every row, keeping both margins
                 let d = if w > 80 { w - 80 } else { 80 - w };
                 let cands: Vec<usize> = if w > 80 { vec![(w - d) / 2, 1, w - d - 1, 0] } else { vec![w / 2, w - 1, 0, 1.min(w - 1)] };
@@ -766,6 +762,22 @@ impl Attr {
                     }
                     if self.keep_if_fails(c, Probe { x: nx, ..p }) {
                         return (true, false);
+                    }
+                }
+                {
+                    // re-flow the cell stream at width 80 (keeps everything that does not depend on the margins)
+                    let mut stream: Vec<Cell> = n.grid.iter().flatten().copied().collect();
+                    let idx = p.y * w + p.x;
+                    while stream.len() % 80 != 0 {
+                        stream.push(FILL_A);
+                    }
+                    if stream.len() / 80 <= 60 {
+                        let mut c = n.clone();
+                        c.w = 80;
+                        c.grid = stream.chunks(80).map(|r| r.to_vec()).collect();
+                        if self.keep_if_fails(c, Probe { x: idx % 80, y: idx / 80, ..p }) {
+                            return (true, false);
+                        }
                     }
                 }
                 (false, true)
@@ -844,6 +856,21 @@ impl Attr {
                 let kept = self.keep_if_fails(c, p);
                 (kept, !kept)
             }
+            Step::AllOpts => {
+                if n.w != 80 || n.opts == Opts::BASE {
+                    return (false, false);
+                }
+                let mut c = n.clone();
+                c.opts = Opts::BASE;
+                if c.grid.iter().flatten().any(|cell| !encodable(cell.0, 0)) {
+                    c.opts.ctrl = n.opts.ctrl;
+                }
+                relegalize(&mut c);
+                if c.grid != n.grid {
+                    return (false, false);
+                }
+                (self.keep_if_fails(c, p), false)
+            }
             Step::Opt(i) => {
                 let v = n.opts.get(i);
                 let b = Opts::BASE.get(i);
@@ -909,8 +936,9 @@ fn attribute(n0: &Norm, first: &Mis) -> (String, String) {
         }
     }
 
-    let mut steps: Vec<Step> = vec![Step::Window, Step::Join, Step::Runs, Step::Width, Step::Bom, Step::Unmargin, Step::Trailing];
+    let mut steps: Vec<Step> = vec![Step::Window, Step::Join, Step::Runs, Step::Width, Step::Window, Step::Join, Step::Runs, Step::Bom, Step::Unmargin, Step::Trailing];
     steps.extend((0..FEATURES.len()).map(Step::Feature));
+    steps.push(Step::AllOpts);
     steps.extend((0..11).map(Step::Opt));
 
     // first pass: every step; further passes: only the steps that were blocked (their removal made the case pass) are
@@ -1038,7 +1066,7 @@ fn nontrivial(n: &Norm) -> bool {
 fn check(c: &Case) -> Verdict {
     let n = normalize(c);
     match roundtrip(&n, None) {
-        Outcome::Same => Verdict::pass(nontrivial(&n), n.opts.tag()),
+        Outcome::Same => Verdict::pass(nontrivial(&n), if c.steered { format!("{}~", n.opts.tag()) } else { n.opts.tag() }),
         Outcome::Panic(sig, msg) => Verdict::fail(sig, format!("opts={} {msg}", n.opts.tag())),
         Outcome::SaveError(e) => {
             let m = Mis { clause: "save_error", x: 0, y: 0, msg: e };
@@ -1051,7 +1079,8 @@ fn check(c: &Case) -> Verdict {
             Verdict::fail(key, format!("from_bytes(\"x.ans\") failed on the engine's own output: {}; {red}", m.msg))
         }
         Outcome::Differs(v, bytes) => {
-            let first = &v[0];
+            // key by the earliest violated cell in reading order (where the damage starts); size first, ties by clause order
+            let first = v.iter().find(|m| m.clause == "size").unwrap_or_else(|| v.iter().min_by_key(|m| (m.y, m.x)).unwrap());
             let (key, red) = attribute(&n, first);
             let cut = bytes.len().min(200);
             Verdict::fail(
@@ -1190,10 +1219,142 @@ fn rows() -> BoxedStrategy<Vec<Row>> {
     ]
     .boxed()
 }
-fn cases() -> BoxedStrategy<Case> {
+/// Known findings (ids in known_findings.json, optionally with suffix .1 ... .5) whose triggers the generator avoids
+/// while they are open, so that the bulk of the cases exercises everything else.
+#[derive(Clone, Copy, Debug, Default)]
+struct Steer {
+    bold_low_fg: bool,
+    conceal: bool,
+    trailing_blink: bool,
+    cuf_ext_bg: bool,
+    cuf_margin: bool,
+    bom: bool,
+}
+
+const STEER_IDS: [&str; 6] = [
+    "c04.bold_low_fg_lost",
+    "c04.conceal_sets_blink_state",
+    "c04.trailing_blink_blank_trimmed",
+    "c04.cuf_over_extcolor_bg",
+    "c04.cuf_run_at_right_margin",
+    "c04.utf8_bom_prefix",
+];
+
+impl Steer {
+    fn from_engine(eng: &Engine) -> Steer {
+        let open = |id: &str| eng.finding_open(id) || (1..=5).any(|k| eng.finding_open(&format!("{id}.{k}")));
+        Steer {
+            bold_low_fg: open(STEER_IDS[0]),
+            conceal: open(STEER_IDS[1]),
+            trailing_blink: open(STEER_IDS[2]),
+            cuf_ext_bg: open(STEER_IDS[3]),
+            cuf_margin: open(STEER_IDS[4]),
+            bom: open(STEER_IDS[5]),
+        }
+    }
+    fn any(&self) -> bool {
+        self.bold_low_fg || self.conceal || self.trailing_blink || self.cuf_ext_bg || self.cuf_margin || self.bom
+    }
+}
+
+/// remove the triggers of the open known findings from a normal form; true when something was changed
+fn steer(n: &mut Norm, s: &Steer) -> bool {
+    let o = n.opts;
+    let w = n.w;
+    let h = n.grid.len();
+    let before = n.grid.clone();
+    for (y, row) in n.grid.iter_mut().enumerate() {
+        for c in row.iter_mut() {
+            if s.bold_low_fg && c.3 & F_BOLD != 0 && matches!(c.1, Col::D(i) if i < 8) {
+                c.3 &= !F_BOLD; // bold on a dark DOS entry is written without bold
+            }
+            if s.conceal {
+                c.3 &= !F_CONCEAL; // SGR 8 corrupts the writer's blink state
+            }
+        }
+        if s.trailing_blink && o.compress && !o.preserve {
+            // trailing blinking blanks on black are trimmed
+            for c in row.iter_mut().rev() {
+                if is_blank(c.0 as u32) && c.2 == Col::D(0) {
+                    c.3 &= !F_BLINK;
+                } else {
+                    break;
+                }
+            }
+        }
+        if s.cuf_ext_bg && o.compress && o.cuf && o.extcol {
+            // runs of >= 5 spaces on a background written as 48;5;n are replaced by cursor-forward
+            let mut x = 0;
+            while x < w {
+                let cell = row[x];
+                let mut e = x + 1;
+                while e < w && row[e] == cell {
+                    e += 1;
+                }
+                if e - x >= 5 && cell.0 == b' ' && is_ext_bg(cell.2, &o) {
+                    for c in row[x..e].iter_mut() {
+                        c.0 = 0xB0;
+                    }
+                }
+                x = e;
+            }
+        }
+        if s.cuf_margin && o.compress && o.cuf && !o.longer && y + 1 < h && w >= 5 {
+            // a cursor-forward run that ends at the right margin does not wrap
+            let last = row[w - 1];
+            let tail_uniform = row[w - 5..].iter().all(|c| *c == last);
+            let cufable = last.0 == b' ' && last.2 == Col::D(0) && last.3 & F_BLINK == 0;
+            if tail_uniform && cufable {
+                let trimmed = !o.preserve && {
+                    // the writer trims trailing blanks that carry the attribute of the last cell
+                    let same = row.iter().rev().take_while(|c| is_blank(c.0 as u32) && (c.1, c.2, c.3) == (last.1, last.2, last.3)).count();
+                    let blanks = row.iter().rev().take_while(|c| is_blank(c.0 as u32)).count();
+                    same == blanks && o.lossless
+                };
+                if !trimmed {
+                    row[w - 1].0 = 0xB0;
+                }
+            }
+        }
+    }
+    if s.bom && has_bom(n) {
+        n.grid[0][0].0 = b'A';
+    }
+    n.grid != before
+}
+
+fn encode(n: &Norm) -> Vec<Row> {
+    n.grid
+        .iter()
+        .map(|row| {
+            let mut runs: Vec<Run> = Vec::new();
+            for c in row {
+                match runs.last_mut() {
+                    Some(Run(k, l)) if l == c && *k < 255 => *k += 1,
+                    _ => runs.push(Run(1, *c)),
+                }
+            }
+            Row { runs, fill: BLANK }
+        })
+        .collect()
+}
+
+fn cases(st: Steer) -> BoxedStrategy<Case> {
     let w = prop_oneof![4 => Just(80u8), 1 => Just(1u8), 1 => Just(132u8), 1 => 2u8..=40, 3 => 1u8..=132];
     (OptSeq { next: AtomicU64::new(0) }, w, mask(), proptest::bool::weighted(0.012), rows())
-        .prop_map(|(opts, w, mask, bom, rows)| Case { opts, w, mask, bom, rows })
+        .prop_map(move |(opts, w, mask, bom, rows)| {
+            let c = Case { opts, w, mask, bom, rows, steered: false };
+            if !st.any() {
+                return c;
+            }
+            let mut n = normalize(&c);
+            if steer(&mut n, &st) {
+                // the steered grid, spelled out (normalize() of it is the grid itself)
+                Case { opts, w: n.w as u8, mask: 0xFF, bom: false, rows: encode(&n), steered: true }
+            } else {
+                c
+            }
+        })
         .boxed()
 }
 
@@ -1283,7 +1444,16 @@ fn main() {
     eng.assume("rows or cells missing from the loaded buffer count as blank on black, not blinking; rows below the saved rectangle must be blank on black");
     eng.assume("with lossles_output=false the background of the solid block 0xDB is not compared (colour optimiser, owned by C12); underline/italic/faint/crossed-out/concealed are generated but not compared (not part of the statement)");
     eng.assume("unset (invisible) cells are outside the domain: every cell of the saved buffer holds a character");
-    // 16 shards x 6912 = each option vector 16 times (quick); x14 in the thorough tier
-    eng.generated_min(PartCfg::new("buffers", 16 * N_OPTS, 16 * N_OPTS * 14).threads(16).shrink_budget(1200), cases, check, |c: &Case| c.opts.tag(), minimize);
+    // 16 shards x 6912 = each option vector 16 times (quick); x20 in the thorough tier
+    let st = Steer::from_engine(&eng);
+    eng.extra(
+        "steering",
+        icyv::serde_json::json!({
+            "what": "while one of these known findings is open the generator removes its trigger from the generated buffers (class tag ends in ~ when a buffer was changed)",
+            "ids": STEER_IDS,
+            "active": format!("{st:?}"),
+        }),
+    );
+    eng.generated_min(PartCfg::new("buffers", 16 * N_OPTS, 16 * N_OPTS * 20).threads(16).shrink_budget(1200), move || cases(st), check, |c: &Case| c.opts.tag(), minimize);
     eng.run();
 }
